@@ -1,25 +1,27 @@
 #!/usr/bin/env python3
 """Copies confirmed seeded mutants from the scratch worktrees into /verif/seeded/<prop>-<n>/."""
 import json, os, re, shutil, sys
-for f in sorted(os.listdir('/tmp/mut')):
+BASE = sys.argv[1] if len(sys.argv) > 1 else '/tmp/mut'
+TAG = sys.argv[2] if len(sys.argv) > 2 else ''          # e.g. 'r2-' for the second round
+for f in sorted(os.listdir(BASE)):
   m = re.match(r'confirm_(C\d+)_(\d)\.txt$', f)
   if not m:
     continue
   prop, n = m.groups()
-  txt = open(f'/tmp/mut/{f}').read()
+  txt = open(f'{BASE}/{f}').read()
   ok = 'demo_clean_rc=0' in txt and re.search(r'demo_mutant_rc=[1-9]', txt) and '657 passed' in txt and '7 errors' in txt and 'failed' not in txt.split('suite with mutant')[-1]
-  d = f'/verif/seeded/{prop}-{n}'
-  if not os.path.exists(f'/tmp/mut/{prop}/_out/mutant{n}.diff'):
+  d = f'/verif/seeded/{prop}-{TAG}{n}'
+  if not os.path.exists(f'{BASE}/{prop}/_out/mutant{n}.diff'):
     continue      # scratch worktree already removed (stored earlier)
   if not ok:
     print('NOT CONFIRMED', prop, n, txt.replace('\n', ' ')[:300])
     continue
   os.makedirs(d, exist_ok=True)
-  shutil.copy(f'/tmp/mut/{prop}/_out/mutant{n}.diff', f'{d}/patch.diff')
-  shutil.copy(f'/tmp/mut/{prop}/_out/demo{n}.py', f'{d}/demo.py')
-  if os.path.exists(f'/tmp/mut/{prop}/_out/fake_courier.py'):
-    shutil.copy(f'/tmp/mut/{prop}/_out/fake_courier.py', f'{d}/fake_courier.py')
-  notes = open(f'/tmp/mut/{prop}/_out/notes.md').read()
+  shutil.copy(f'{BASE}/{prop}/_out/mutant{n}.diff', f'{d}/patch.diff')
+  shutil.copy(f'{BASE}/{prop}/_out/demo{n}.py', f'{d}/demo.py')
+  if os.path.exists(f'{BASE}/{prop}/_out/fake_courier.py'):
+    shutil.copy(f'{BASE}/{prop}/_out/fake_courier.py', f'{d}/fake_courier.py')
+  notes = open(f'{BASE}/{prop}/_out/notes.md').read()
   meta_path = f'{d}/meta.json'
   meta = json.load(open(meta_path)) if os.path.exists(meta_path) else {}
   meta.update(dict(property=prop, mutant=int(n), origin='independent sub-agent given only the property text and a scratch worktree',
